@@ -4,6 +4,7 @@ import (
 	"bytes"
 	"encoding/binary"
 	"encoding/hex"
+	"errors"
 	"fmt"
 	"io"
 	"math"
@@ -20,10 +21,35 @@ import (
 )
 
 // ---- readers ----
+//
+// Reader kinds (every one a legal io.Reader):
+//
+//	0 bytes.Reader          io.ByteReader, every Read is full, EOF on a separate call
+//	1 chunk1                plain io.Reader, 1 byte per Read, EOF on a separate call
+//	2 byte+chunk3+dataEOF   io.ByteReader whose Read returns at most 3 bytes and hands the LAST bytes out
+//	                        together with io.EOF (like testing/iotest.DataErrReader over a bufio.Reader)
+//	3 chunk2+dataEOF        plain io.Reader, 2 bytes per Read, last bytes together with io.EOF
+//
+// and, for truncated input only, two readers whose stream ends with a NON-EOF error (a broken connection):
+//
+//	4 chunk1/boom           kind 1 ending with errBoom
+//	5 byte+chunk3/boom      kind 2 ending with errBoom (delivered together with the last bytes)
+
+var errBoom = errors.New("harness: connection reset")
 
 type chunkReader struct {
-	b   []byte
-	pos int
+	b       []byte
+	pos     int
+	max     int   // bytes per Read
+	dataEOF bool  // the last bytes come with the end error attached
+	endErr  error // io.EOF unless set
+}
+
+func (c *chunkReader) end() error {
+	if c.endErr != nil {
+		return c.endErr
+	}
+	return io.EOF
 }
 
 func (c *chunkReader) Read(p []byte) (int, error) {
@@ -31,11 +57,26 @@ func (c *chunkReader) Read(p []byte) (int, error) {
 		return 0, nil
 	}
 	if c.pos >= len(c.b) {
-		return 0, io.EOF
+		return 0, c.end()
 	}
-	p[0] = c.b[c.pos]
+	n := min(c.max, len(p), len(c.b)-c.pos)
+	copy(p, c.b[c.pos:c.pos+n])
+	c.pos += n
+	if c.dataEOF && c.pos == len(c.b) {
+		return n, c.end()
+	}
+	return n, nil
+}
+
+// byteChunkReader adds ReadByte, so that the io.ByteReader paths meet short reads as well.
+type byteChunkReader struct{ chunkReader }
+
+func (c *byteChunkReader) ReadByte() (byte, error) {
+	if c.pos >= len(c.b) {
+		return 0, c.end()
+	}
 	c.pos++
-	return 1, nil
+	return c.b[c.pos-1], nil
 }
 
 type rdr interface {
@@ -47,13 +88,61 @@ type bytesRdr struct{ *bytes.Reader }
 func (b bytesRdr) left() int     { return b.Len() }
 func (c *chunkReader) left() int { return len(c.b) - c.pos }
 
-var readerKinds = []string{"bytes.Reader", "chunk1"}
+var readerKinds = []string{"bytes.Reader", "chunk1", "byte+chunk3+dataEOF", "chunk2+dataEOF", "chunk1/boom", "byte+chunk3/boom"}
+
+const (
+	fullKinds   = 4 // kinds that deliver the whole input and end with io.EOF
+	prefixKinds = 6 // truncated input additionally ends with a non-EOF error
+)
 
 func mkReader(kind int, b []byte) rdr {
-	if kind == 0 {
+	switch kind {
+	case 0:
 		return bytesRdr{bytes.NewReader(b)}
+	case 1:
+		return &chunkReader{b: b, max: 1}
+	case 2:
+		return &byteChunkReader{chunkReader{b: b, max: 3, dataEOF: true}}
+	case 3:
+		return &chunkReader{b: b, max: 2, dataEOF: true}
+	case 4:
+		return &chunkReader{b: b, max: 1, endErr: errBoom}
+	default:
+		return &byteChunkReader{chunkReader{b: b, max: 3, dataEOF: true, endErr: errBoom}}
 	}
-	return &chunkReader{b: b}
+}
+
+// ---- writers ----
+
+// plainWriter hides bytes.Buffer's WriteByte so that the non-ByteWriter path is exercised too.
+type plainWriter struct{ b *bytes.Buffer }
+
+func (p plainWriter) Write(x []byte) (int, error) { return p.b.Write(x) }
+
+// failOnceWriter accepts `at` bytes, fails the Write that would cross that offset (after taking the bytes up
+// to it, as a connection does) and works again afterwards: an encoder that drops ONE error return of its
+// writer reports success although the bytes on the wire are not the value's encoding.
+type failOnceWriter struct {
+	at, n  int
+	failed bool
+}
+
+func (f *failOnceWriter) Write(p []byte) (int, error) {
+	if !f.failed && f.n+len(p) > f.at {
+		k := f.at - f.n
+		f.n += k
+		f.failed = true
+		return k, errBoom
+	}
+	f.n += len(p)
+	return len(p), nil
+}
+
+type failOnceByteWriter struct{ failOnceWriter }
+
+func (f *failOnceByteWriter) WriteByte(b byte) error {
+	_, err := f.Write([]byte{b})
+	return err
 }
 
 // ---- reference encoders (independent of the code under test) ----
@@ -120,8 +209,11 @@ func (h *H) check(fn, label string, enc, ref []byte, dec func(io.Reader) (any, e
 		h.vio(fn, "encoding-differs-from-reference", fmt.Sprintf("%s: got %s want %s", label, hx(enc), hx(ref)))
 	}
 	trailer := []byte{0xA5, 0x5A, 0xC3}
-	for kind := range readerKinds {
+	for kind := 0; kind < prefixKinds; kind++ {
 		for _, tr := range [][]byte{nil, trailer} {
+			if kind >= fullKinds {
+				break // these end with a non-EOF error: truncated input only
+			}
 			in := append(append([]byte{}, enc...), tr...)
 			rd := mkReader(kind, in)
 			var got any
@@ -223,17 +315,60 @@ func enc(f func(io.Writer) error) []byte {
 	return b.Bytes()
 }
 
-// plainWriter hides bytes.Buffer's WriteByte so that the non-ByteWriter path is exercised too.
-type plainWriter struct{ b *bytes.Buffer }
-
-func (p plainWriter) Write(x []byte) (int, error) { return p.b.Write(x) }
-
 func encPlain(f func(io.Writer) error) []byte {
 	var b bytes.Buffer
 	if err := f(plainWriter{&b}); err != nil {
 		return nil
 	}
 	return b.Bytes()
+}
+
+// failPoints: byte offsets at which the writer is made to fail once.
+func failPoints(n int) []int {
+	if n <= 48 {
+		out := make([]int, n)
+		for i := range out {
+			out[i] = i
+		}
+		return out
+	}
+	return []int{0, 1, 2, 3, 4, 5, n / 2, n - 2, n - 1}
+}
+
+// checkE is check for a value written by the real encoder f. On top of check it drives the writer dimension:
+//   - f must produce the same bytes through an io.ByteWriter (bytes.Buffer) and a plain io.Writer;
+//   - when the writer fails once at any byte offset of the encoding, f must report an error: returning nil
+//     there means "written", but what is on the wire does not decode back to the value.
+func (h *H) checkE(fn, label string, f func(io.Writer) error, ref []byte, dec func(io.Reader) (any, error), want any) {
+	var b1, b2 bytes.Buffer
+	if err := f(&b1); err != nil {
+		h.vio(fn, "encode-error", fmt.Sprintf("%s: %v", label, err))
+		return
+	}
+	if err := f(plainWriter{&b2}); err != nil || !bytes.Equal(b1.Bytes(), b2.Bytes()) {
+		h.vio(fn, "bytewriter-vs-writer", fmt.Sprintf("%s: io.ByteWriter gives %s, plain io.Writer gives %s (err %v)", label, hx(b1.Bytes()), hx(b2.Bytes()), err))
+	}
+	e := b1.Bytes()
+	for _, at := range failPoints(len(e)) {
+		for variant := 0; variant < 2; variant++ {
+			h.r.Eval(1)
+			var w io.Writer
+			name := "io.Writer"
+			if variant == 0 {
+				w = &failOnceWriter{at: at}
+			} else {
+				w, name = &failOnceByteWriter{failOnceWriter{at: at}}, "io.ByteWriter"
+			}
+			var err error
+			if p, pv := vrt.Catch(func() { err = f(w) }); p {
+				h.vio(fn, "panic-on-write-error", fmt.Sprintf("%s: writer (%s) failing at byte %d/%d: %v", label, name, at, len(e), pv))
+			} else if err == nil {
+				h.vio(fn, "write-error-swallowed", fmt.Sprintf("%s: the writer (%s) failed at byte %d of %d but the encoder returned nil", label, name, at, len(e)))
+			}
+		}
+	}
+	h.r.Class(fn + "/writer-fails-once")
+	h.check(fn, label, e, ref, dec, want)
 }
 
 func varIntAlphabet(thorough bool) []int32 {
@@ -307,9 +442,9 @@ func TestVerif(t *testing.T) {
 	vrt.Run(t, "C03", func(r *vrt.R) {
 		groups := map[string]func(h *H){
 			"varint": gVarInt, "fixed": gFixed, "string": gString, "bytes": gBytes, "bytes17": gBytes17,
-			"extshort": gExtShort, "uuid": gUUID, "props": gProps, "utf": gUTF, "key": gKey, "arrays": gArrays,
+			"extshort": gExtShort, "uuid": gUUID, "props": gProps, "utf": gUTF, "key": gKey, "arrays": gArrays, "pwrap": gPWrap,
 		}
-		names := []string{"varint", "fixed", "string", "bytes", "bytes17", "extshort", "uuid", "props", "utf", "key", "arrays"}
+		names := []string{"varint", "fixed", "string", "bytes", "bytes17", "extshort", "uuid", "props", "utf", "key", "arrays", "pwrap"}
 		var rp struct{ Group string }
 		if r.ReplayInto(&rp) {
 			h := &H{r: r, group: rp.Group, seen: map[string]bool{}}
@@ -323,7 +458,7 @@ func TestVerif(t *testing.T) {
 			h := &H{r: r, group: n, seen: map[string]bool{}}
 			groups[n](h)
 		}
-		r.Sample(map[string]any{"primitive": "VarInt", "value": -1, "encoding": hx(refVarInt(-1)), "prefixes_tested": 4, "readers": readerKinds})
+		r.Sample(map[string]any{"primitive": "VarInt", "value": -1, "encoding": hx(refVarInt(-1)), "prefixes_tested": 5, "readers": readerKinds, "writers": []string{"bytes.Buffer (io.ByteWriter)", "plain io.Writer", "fails once at byte k (plain / ByteWriter)"}})
 		r.Sample(map[string]any{"primitive": "Bytes17", "len": 300, "length_prefix": hx(refExtShort(300))})
 	})
 }
@@ -332,16 +467,23 @@ func gVarInt(h *H) {
 	for _, v := range varIntAlphabet(h.r.Thorough()) {
 		v := v
 		e := enc(func(w io.Writer) error { return WriteVarInt(w, int(v)) })
-		e2 := encPlain(func(w io.Writer) error { return WriteVarInt(w, int(v)) })
-		if !bytes.Equal(e, e2) {
-			h.vio("WriteVarInt", "bytewriter-vs-writer", fmt.Sprint(v))
-		}
-		h.check("VarInt", fmt.Sprint(v), e, refVarInt(v), func(rd io.Reader) (any, error) { return ReadVarInt(rd) }, int(v))
+		h.checkE("VarInt", fmt.Sprint(v), func(w io.Writer) error { return WriteVarInt(w, int(v)) }, refVarInt(v), func(rd io.Reader) (any, error) { return ReadVarInt(rd) }, int(v))
 		// ReadVarIntReturnN: n must equal the encoding length
 		for kind := range readerKinds {
 			got, n, err := ReadVarIntReturnN(mkReader(kind, e))
 			if err != nil || got != int(v) || n != len(e) {
 				h.vio("ReadVarIntReturnN", "n-or-value/"+readerKinds[kind], fmt.Sprintf("v=%d got=%d n=%d len=%d err=%v", v, got, n, len(e), err))
+			}
+		}
+		// WriteVarIntN / WriteUint8N: the returned count is the number of bytes written (the frame encoder adds them up)
+		for variant := 0; variant < 2; variant++ {
+			var b bytes.Buffer
+			var w io.Writer = &b
+			if variant == 1 {
+				w = plainWriter{&b}
+			}
+			if n, err := WriteVarIntN(w, int(v)); err != nil || n != b.Len() || !bytes.Equal(b.Bytes(), refVarInt(v)) {
+				h.vio("WriteVarIntN", "n-or-bytes", fmt.Sprintf("v=%d variant=%d n=%d written=%s err=%v", v, variant, n, hx(b.Bytes()), err))
 			}
 		}
 	}
@@ -354,26 +496,38 @@ func gVarInt(h *H) {
 func gFixed(h *H) {
 	for _, v := range u64Alphabet() {
 		v := v
-		h.check("Uint8", fmt.Sprint(uint8(v)), enc(func(w io.Writer) error { return WriteUint8(w, uint8(v)) }), refBE(v&0xFF, 1), func(rd io.Reader) (any, error) { return ReadUint8(rd) }, uint8(v))
-		h.check("Int8", fmt.Sprint(int8(v)), enc(func(w io.Writer) error { return WriteInt8(w, int8(v)) }), refBE(v&0xFF, 1), func(rd io.Reader) (any, error) { return ReadInt8(rd) }, int8(v))
-		h.check("Byte", fmt.Sprint(byte(v)), enc(func(w io.Writer) error { return WriteByte(w, byte(v)) }), refBE(v&0xFF, 1), func(rd io.Reader) (any, error) { return ReadByte(rd) }, byte(v))
-		h.check("Uint16", fmt.Sprint(uint16(v)), enc(func(w io.Writer) error { return WriteUint16(w, uint16(v)) }), refBE(v&0xFFFF, 2), func(rd io.Reader) (any, error) { return ReadUint16(rd) }, uint16(v))
-		h.check("Int16", fmt.Sprint(int16(v)), enc(func(w io.Writer) error { return WriteInt16(w, int16(v)) }), refBE(v&0xFFFF, 2), func(rd io.Reader) (any, error) { return ReadInt16(rd) }, int16(v))
-		h.check("Uint32", fmt.Sprint(uint32(v)), enc(func(w io.Writer) error { return WriteUint32(w, uint32(v)) }), refBE(v&0xFFFFFFFF, 4), func(rd io.Reader) (any, error) { return ReadUint32(rd) }, uint32(v))
-		h.check("Int32", fmt.Sprint(int32(v)), enc(func(w io.Writer) error { return WriteInt32(w, int32(v)) }), refBE(v&0xFFFFFFFF, 4), func(rd io.Reader) (any, error) { return ReadInt32(rd) }, int32(v))
-		h.check("Int", fmt.Sprint(int32(v)), enc(func(w io.Writer) error { return WriteInt(w, int(int32(v))) }), refBE(v&0xFFFFFFFF, 4), func(rd io.Reader) (any, error) { return ReadInt(rd) }, int(int32(v)))
-		h.check("Uint64", fmt.Sprint(v), enc(func(w io.Writer) error { return WriteUint64(w, v) }), refBE(v, 8), func(rd io.Reader) (any, error) { return ReadUint64(rd) }, v)
-		h.check("Int64", fmt.Sprint(int64(v)), enc(func(w io.Writer) error { return WriteInt64(w, int64(v)) }), refBE(v, 8), func(rd io.Reader) (any, error) { return ReadInt64(rd) }, int64(v))
+		h.checkE("Uint8", fmt.Sprint(uint8(v)), func(w io.Writer) error { return WriteUint8(w, uint8(v)) }, refBE(v&0xFF, 1), func(rd io.Reader) (any, error) { return ReadUint8(rd) }, uint8(v))
+		h.checkE("Int8", fmt.Sprint(int8(v)), func(w io.Writer) error { return WriteInt8(w, int8(v)) }, refBE(v&0xFF, 1), func(rd io.Reader) (any, error) { return ReadInt8(rd) }, int8(v))
+		h.checkE("Byte", fmt.Sprint(byte(v)), func(w io.Writer) error { return WriteByte(w, byte(v)) }, refBE(v&0xFF, 1), func(rd io.Reader) (any, error) { return ReadByte(rd) }, byte(v))
+		h.checkE("Uint16", fmt.Sprint(uint16(v)), func(w io.Writer) error { return WriteUint16(w, uint16(v)) }, refBE(v&0xFFFF, 2), func(rd io.Reader) (any, error) { return ReadUint16(rd) }, uint16(v))
+		h.checkE("Int16", fmt.Sprint(int16(v)), func(w io.Writer) error { return WriteInt16(w, int16(v)) }, refBE(v&0xFFFF, 2), func(rd io.Reader) (any, error) { return ReadInt16(rd) }, int16(v))
+		h.checkE("Uint32", fmt.Sprint(uint32(v)), func(w io.Writer) error { return WriteUint32(w, uint32(v)) }, refBE(v&0xFFFFFFFF, 4), func(rd io.Reader) (any, error) { return ReadUint32(rd) }, uint32(v))
+		h.checkE("Int32", fmt.Sprint(int32(v)), func(w io.Writer) error { return WriteInt32(w, int32(v)) }, refBE(v&0xFFFFFFFF, 4), func(rd io.Reader) (any, error) { return ReadInt32(rd) }, int32(v))
+		h.checkE("Int", fmt.Sprint(int32(v)), func(w io.Writer) error { return WriteInt(w, int(int32(v))) }, refBE(v&0xFFFFFFFF, 4), func(rd io.Reader) (any, error) { return ReadInt(rd) }, int(int32(v)))
+		h.checkE("Uint64", fmt.Sprint(v), func(w io.Writer) error { return WriteUint64(w, v) }, refBE(v, 8), func(rd io.Reader) (any, error) { return ReadUint64(rd) }, v)
+		h.checkE("Int64", fmt.Sprint(int64(v)), func(w io.Writer) error { return WriteInt64(w, int64(v)) }, refBE(v, 8), func(rd io.Reader) (any, error) { return ReadInt64(rd) }, int64(v))
 		f32 := math.Float32frombits(uint32(v))
 		if f32 == f32 { // NaN != NaN under DeepEqual
-			h.check("Float32", fmt.Sprintf("bits=%x", uint32(v)), enc(func(w io.Writer) error { return WriteFloat32(w, f32) }), refBE(v&0xFFFFFFFF, 4), func(rd io.Reader) (any, error) { return ReadFloat32(rd) }, f32)
+			h.checkE("Float32", fmt.Sprintf("bits=%x", uint32(v)), func(w io.Writer) error { return WriteFloat32(w, f32) }, refBE(v&0xFFFFFFFF, 4), func(rd io.Reader) (any, error) { return ReadFloat32(rd) }, f32)
+		}
+		if f32 != f32 {
+			h.checkE("Float32", fmt.Sprintf("NaN bits=%x", uint32(v)), func(w io.Writer) error { return WriteFloat32(w, f32) }, refBE(v&0xFFFFFFFF, 4), func(rd io.Reader) (any, error) {
+				f, err := ReadFloat32(rd)
+				return math.Float32bits(f), err
+			}, uint32(v))
 		}
 		f64 := math.Float64frombits(v)
+		if f64 != f64 {
+			h.checkE("Float64", fmt.Sprintf("NaN bits=%x", v), func(w io.Writer) error { return WriteFloat64(w, f64) }, refBE(v, 8), func(rd io.Reader) (any, error) {
+				f, err := ReadFloat64(rd)
+				return math.Float64bits(f), err
+			}, v)
+		}
 		if f64 == f64 {
-			h.check("Float64", fmt.Sprintf("bits=%x", v), enc(func(w io.Writer) error { return WriteFloat64(w, f64) }), refBE(v, 8), func(rd io.Reader) (any, error) { return ReadFloat64(rd) }, f64)
+			h.checkE("Float64", fmt.Sprintf("bits=%x", v), func(w io.Writer) error { return WriteFloat64(w, f64) }, refBE(v, 8), func(rd io.Reader) (any, error) { return ReadFloat64(rd) }, f64)
 		}
 		ms := int64(v) % (1 << 50)
-		h.check("UnixMilli", fmt.Sprint(ms), enc(func(w io.Writer) error { return WriteInt64(w, ms) }), refBE(uint64(ms), 8), func(rd io.Reader) (any, error) { return ReadUnixMilli(rd) }, time.UnixMilli(ms))
+		h.checkE("UnixMilli", fmt.Sprint(ms), func(w io.Writer) error { return WriteInt64(w, ms) }, refBE(uint64(ms), 8), func(rd io.Reader) (any, error) { return ReadUnixMilli(rd) }, time.UnixMilli(ms))
 	}
 	for _, b := range []bool{false, true} {
 		b := b
@@ -381,7 +535,7 @@ func gFixed(h *H) {
 		if b {
 			x = 1
 		}
-		h.check("Bool", fmt.Sprint(b), enc(func(w io.Writer) error { return WriteBool(w, b) }), refBE(x, 1), func(rd io.Reader) (any, error) { return ReadBool(rd) }, b)
+		h.checkE("Bool", fmt.Sprint(b), func(w io.Writer) error { return WriteBool(w, b) }, refBE(x, 1), func(rd io.Reader) (any, error) { return ReadBool(rd) }, b)
 	}
 }
 
@@ -411,8 +565,7 @@ func gString(h *H) {
 			if len(s) != n {
 				continue
 			}
-			e := enc(func(w io.Writer) error { return WriteString(w, s) })
-			h.check("String", fmt.Sprintf("len=%d kind=%d", n, kind), e, refLenPrefixed([]byte(s)), func(rd io.Reader) (any, error) { return ReadString(rd) }, s)
+			h.checkE("String", fmt.Sprintf("len=%d kind=%d", n, kind), func(w io.Writer) error { return WriteString(w, s) }, refLenPrefixed([]byte(s)), func(rd io.Reader) (any, error) { return ReadString(rd) }, s)
 		}
 	}
 	// ReadStringMax: the cap is max*4 bytes; cap and cap+1
@@ -436,6 +589,33 @@ func gString(h *H) {
 		in := append(refVarInt(l), 'x')
 		h.reject("String", fmt.Sprintf("length-prefix=%d", l), in, func(rd io.Reader) (any, error) { return ReadString(rd) })
 	}
+	// the default cap (DefaultMaxStringSize characters = x4 bytes) with the body PRESENT: a header followed by
+	// one byte is rejected for being truncated whatever the cap is, so only a complete body pins the cap itself
+	for _, d := range []int{-1, 0, 1} {
+		n := DefaultMaxStringSize*4 + d
+		s := utf8String(n, 0)
+		if d <= 0 {
+			h.checkE("String", fmt.Sprintf("len=cap%+d", d), func(w io.Writer) error { return WriteString(w, s) }, refLenPrefixed([]byte(s)), func(rd io.Reader) (any, error) { return ReadString(rd) }, s)
+		} else {
+			h.reject("String", fmt.Sprintf("len=cap%+d with body", d), refLenPrefixed([]byte(s)), func(rd io.Reader) (any, error) { return ReadString(rd) })
+		}
+	}
+	// not length-prefixed (legacy brand / Velocity hello): reads to the end of the input, so truncation is not
+	// detectable; only the inverse is asserted
+	for _, n := range []int{0, 1, 300, 70000} {
+		b := content(n, 1)
+		for kind := 0; kind < fullKinds; kind++ {
+			h.r.Eval(2)
+			h.r.Class("RawBytes")
+			e := enc(func(w io.Writer) error { return WriteRawBytes(w, b) })
+			if got, err := ReadRawBytes(mkReader(kind, e)); err != nil || !bytes.Equal(got, b) || !bytes.Equal(e, b) {
+				h.vio("RawBytes", "roundtrip/"+readerKinds[kind], fmt.Sprintf("len=%d: got %s err %v", n, hx(got), err))
+			}
+			if got, err := ReadStringWithoutLen(mkReader(kind, e)); err != nil || got != string(b) {
+				h.vio("StringWithoutLen", "roundtrip/"+readerKinds[kind], fmt.Sprintf("len=%d: got %d bytes err %v", n, len(got), err))
+			}
+		}
+	}
 }
 
 func gBytes(h *H) {
@@ -444,7 +624,7 @@ func gBytes(h *H) {
 			b := content(n, kind)
 			e := enc(func(w io.Writer) error { return WriteBytes(w, b) })
 			if n <= DefaultMaxStringSize {
-				h.check("Bytes", fmt.Sprintf("len=%d kind=%d", n, kind), e, refLenPrefixed(b), func(rd io.Reader) (any, error) { return ReadBytes(rd) }, b)
+				h.checkE("Bytes", fmt.Sprintf("len=%d kind=%d", n, kind), func(w io.Writer) error { return WriteBytes(w, b) }, refLenPrefixed(b), func(rd io.Reader) (any, error) { return ReadBytes(rd) }, b)
 			} else {
 				h.reject("Bytes", fmt.Sprintf("len=%d", n), e, func(rd io.Reader) (any, error) { return ReadBytes(rd) })
 			}
@@ -474,8 +654,9 @@ func gBytes(h *H) {
 
 func gBytes17(h *H) {
 	lens := lengthAlphabet(math.MaxInt16, 65535, 65536, 70000)
+	lens = append(lens, ForgeMaxArrayLength, ForgeMaxArrayLength+1)
 	if h.r.Thorough() {
-		lens = append(lens, ForgeMaxArrayLength-1, ForgeMaxArrayLength)
+		lens = append(lens, ForgeMaxArrayLength-1)
 	}
 	for _, n := range lens {
 		for _, ext := range []bool{false, true} {
@@ -487,6 +668,10 @@ func gBytes17(h *H) {
 				if err == nil {
 					h.vio("WriteBytes17", "oversize-accepted", fmt.Sprintf("len=%d ext=%v", n, ext))
 				}
+				if ext {
+					// the reader's side of the same limit, body present
+					h.reject("Bytes17", fmt.Sprintf("len=%d with body", n), append(refExtShort(n), b...), func(rd io.Reader) (any, error) { return ReadBytes17(rd) })
+				}
 				continue
 			}
 			if err != nil {
@@ -494,8 +679,12 @@ func gBytes17(h *H) {
 				continue
 			}
 			ref := append(refExtShort(n), b...)
-			h.check("Bytes17", fmt.Sprintf("len=%d ext=%v", n, ext), buf.Bytes(), ref, func(rd io.Reader) (any, error) { return ReadBytes17(rd) }, b)
+			h.checkE("Bytes17", fmt.Sprintf("len=%d ext=%v", n, ext), func(w io.Writer) error { return WriteBytes17(w, b, ext) }, ref, func(rd io.Reader) (any, error) { return ReadBytes17(rd) }, b)
 		}
+	}
+	// length prefixes above the Forge limit (the 3-byte form reaches 2^23-1) followed by one byte
+	for _, n := range []int{ForgeMaxArrayLength + 1, 1 << 21, 1<<22 + 5, 0x7FFFFF} {
+		h.reject("Bytes17", fmt.Sprintf("length-prefix=%d", n), append(refExtShort(n), 'x'), func(rd io.Reader) (any, error) { return ReadBytes17(rd) })
 	}
 }
 
@@ -524,7 +713,7 @@ func gExtShort(h *H) {
 		ref := refExtShort(v)
 		// fast path: byte compare + decode via bytes.Reader; full check for boundary values only
 		if v < 600 || v&(v-1) == 0 || (v+1)&v == 0 || v == 0x7FFFFF || v%4099 == 0 {
-			h.check("ExtendedForgeShort", fmt.Sprint(v), e, ref, func(rd io.Reader) (any, error) { return ReadExtendedForgeShort(rd) }, v)
+			h.checkE("ExtendedForgeShort", fmt.Sprint(v), func(w io.Writer) error { return WriteExtendedForgeShort(w, v) }, ref, func(rd io.Reader) (any, error) { return ReadExtendedForgeShort(rd) }, v)
 			continue
 		}
 		h.r.Eval(1)
@@ -554,8 +743,8 @@ func gUUID(h *H) {
 	ids = append(ids, uuid.UUID{1, 2, 3, 4, 5, 6, 7, 8, 9, 10, 11, 12, 13, 14, 15, 16})
 	for _, id := range ids {
 		id := id
-		h.check("UUID", id.String(), enc(func(w io.Writer) error { return WriteUUID(w, id) }), id[:], func(rd io.Reader) (any, error) { return ReadUUID(rd) }, id)
-		h.check("UUIDIntArray", id.String(), enc(func(w io.Writer) error { return WriteUUIDIntArray(w, id) }), id[:], func(rd io.Reader) (any, error) { return ReadUUIDIntArray(rd) }, id)
+		h.checkE("UUID", id.String(), func(w io.Writer) error { return WriteUUID(w, id) }, id[:], func(rd io.Reader) (any, error) { return ReadUUID(rd) }, id)
+		h.checkE("UUIDIntArray", id.String(), func(w io.Writer) error { return WriteUUIDIntArray(w, id) }, id[:], func(rd io.Reader) (any, error) { return ReadUUIDIntArray(rd) }, id)
 	}
 }
 
@@ -586,12 +775,25 @@ func gProps(h *H) {
 		lists = append(lists, []profile.Property{a})
 		for _, b := range entries {
 			lists = append(lists, []profile.Property{a, b})
+			for _, c := range entries {
+				lists = append(lists, []profile.Property{a, b, c})
+			}
 		}
+	}
+	// more entries than the decoder pre-allocates for (MaxPreAllocSize): count-1, count, count+1
+	for _, n := range []int{MaxPreAllocSize - 1, MaxPreAllocSize, MaxPreAllocSize + 1} {
+		l := make([]profile.Property, n)
+		for i := range l {
+			l[i] = profile.Property{Name: "n", Value: fmt.Sprint(i % 7)}
+			if i%3 == 0 {
+				l[i].Signature = "s"
+			}
+		}
+		lists = append(lists, l)
 	}
 	for i, l := range lists {
 		l := l
-		e := enc(func(w io.Writer) error { return WriteProperties(w, l) })
-		h.check("Properties", fmt.Sprintf("list#%d(n=%d)", i, len(l)), e, refProps(l), func(rd io.Reader) (any, error) { return ReadProperties(rd) }, l)
+		h.checkE("Properties", fmt.Sprintf("list#%d(n=%d)", i, len(l)), func(w io.Writer) error { return WriteProperties(w, l) }, refProps(l), func(rd io.Reader) (any, error) { return ReadProperties(rd) }, l)
 	}
 	for _, l := range []int32{-1, -5, math.MinInt32, math.MaxInt32, 1 << 28} {
 		h.reject("Properties", fmt.Sprintf("count=%d", l), append(refVarInt(l), 0), func(rd io.Reader) (any, error) { return ReadProperties(rd) })
@@ -607,86 +809,97 @@ func gUTF(h *H) {
 		if len(s) != n {
 			s = utf8String(n, 0)
 		}
-		e := enc(func(w io.Writer) error { return WriteUTF(w, s) })
-		h.check("UTF", fmt.Sprintf("len=%d", n), e, append(refBE(uint64(n), 2), s...), func(rd io.Reader) (any, error) { return ReadUTF(rd) }, s)
+		h.checkE("UTF", fmt.Sprintf("len=%d", n), func(w io.Writer) error { return WriteUTF(w, s) }, append(refBE(uint64(n), 2), s...), func(rd io.Reader) (any, error) { return ReadUTF(rd) }, s)
 	}
+	// The length prefix is an unsigned short: a longer string has no encoding. The encoder must refuse it (as
+	// java.io.DataOutput.writeUTF and WriteBytes17 do); if it reports success, what it wrote must decode back.
+	for _, n := range []int{65536, 65537, 70000, 131072 + 5} {
+		h.r.Eval(1)
+		h.r.Class("UTF/oversize")
+		s := utf8String(n, 0)
+		var b bytes.Buffer
+		if err := WriteUTF(&b, s); err != nil {
+			continue
+		}
+		rd := bytesRdr{bytes.NewReader(b.Bytes())}
+		got, err := ReadUTF(rd)
+		if err != nil || got != s || rd.left() != 0 {
+			h.vio("WriteUTF", "oversize-accepted", fmt.Sprintf("a %d-byte string was written without error as %s; reading it back gives %d bytes, err %v, %d bytes left over", n, hx(b.Bytes()), len(got), err, rd.left()))
+		}
+	}
+}
+
+func keyStrings(ks []key.Key) []string {
+	out := make([]string, 0, len(ks))
+	for _, k := range ks {
+		out = append(out, k.String())
+	}
+	return out
 }
 
 func gKey(h *H) {
 	good := []string{"minecraft:brand", "a:b", "velocity:player_info", "ns.x-y_z:path/to.some-thing_1", "minecraft:" + strings.Repeat("a", 200)}
+	decKey := func(rd io.Reader) (any, error) {
+		k, err := ReadKey(rd)
+		if err != nil {
+			return nil, err
+		}
+		return k.String(), nil
+	}
+	decMinimal := func(rd io.Reader) (any, error) {
+		k, err := ReadMinimalKey(rd)
+		if err != nil {
+			return nil, err
+		}
+		return k.String(), nil
+	}
+	decArray := func(rd io.Reader) (any, error) {
+		ks, err := ReadKeyArray(rd)
+		if err != nil {
+			return nil, err
+		}
+		return keyStrings(ks), nil
+	}
 	for _, s := range good {
 		k := parseIdentifierKey(s)
-		e := enc(func(w io.Writer) error { return WriteKey(w, k) })
-		if e == nil {
+		if e := enc(func(w io.Writer) error { return WriteKey(w, k) }); e == nil {
 			h.vio("WriteKey", "valid-key-rejected", s)
 			continue
 		}
-		h.r.Eval(1)
-		h.r.Class("Key")
-		h.r.Nontrivial(1)
-		if !bytes.Equal(e, refLenPrefixed([]byte(s))) {
-			h.vio("Key", "encoding-differs-from-reference", s)
-		}
-		for kind := range readerKinds {
-			rd := mkReader(kind, e)
-			got, err := ReadKey(rd)
-			if err != nil || got.String() != s || rd.left() != 0 {
-				h.vio("Key", "roundtrip/"+readerKinds[kind], fmt.Sprintf("%s: got %v err %v left %d", s, got, err, rd.left()))
-			}
-			for n := 0; n < len(e); n++ {
-				if _, err := ReadKey(mkReader(kind, e[:n])); err == nil {
-					h.vio("Key", "prefix-accepted/"+readerKinds[kind], fmt.Sprintf("%s prefix %d", s, n))
-				}
-				h.r.Eval(1)
-			}
-		}
-		// minimal key
-		em := enc(func(w io.Writer) error { return WriteMinimalKey(w, k) })
+		h.checkE("Key", s, func(w io.Writer) error { return WriteKey(w, k) }, refLenPrefixed([]byte(s)), decKey, s)
+		// minimal key: the default namespace is left out on the wire and comes back on reading
 		want := s
 		if strings.HasPrefix(s, "minecraft:") {
 			want = strings.TrimPrefix(s, "minecraft:")
 		}
-		if !bytes.Equal(em, refLenPrefixed([]byte(want))) {
-			h.vio("MinimalKey", "encoding-differs-from-reference", s)
-		}
+		h.checkE("MinimalKey", s, func(w io.Writer) error { return WriteMinimalKey(w, k) }, refLenPrefixed([]byte(want)), decMinimal, s)
 	}
-	// key arrays 0..3
-	for n := 0; n <= 3; n++ {
+	// key arrays 0..3 and around the decoder's pre-allocation clamp
+	for _, n := range []int{0, 1, 2, 3, MaxPreAllocSize - 1, MaxPreAllocSize, MaxPreAllocSize + 1} {
 		var ks []key.Key
+		names := []string{}
 		ref := refVarInt(int32(n))
 		for i := 0; i < n; i++ {
-			ks = append(ks, parseIdentifierKey(good[i]))
-			ref = append(ref, refLenPrefixed([]byte(good[i]))...)
+			name := good[i%4]
+			ks = append(ks, parseIdentifierKey(name))
+			names = append(names, name)
+			ref = append(ref, refLenPrefixed([]byte(name))...)
 		}
-		e := enc(func(w io.Writer) error { return WriteKeyArray(w, ks) })
-		h.r.Eval(1)
-		if !bytes.Equal(e, ref) {
-			h.vio("KeyArray", "encoding-differs-from-reference", fmt.Sprint(n))
-		}
-		for kind := range readerKinds {
-			rd := mkReader(kind, e)
-			got, err := ReadKeyArray(rd)
-			if err != nil || len(got) != n || rd.left() != 0 {
-				h.vio("KeyArray", "roundtrip/"+readerKinds[kind], fmt.Sprintf("n=%d err=%v", n, err))
-				continue
-			}
-			for i := range got {
-				if got[i].String() != good[i] {
-					h.vio("KeyArray", "roundtrip-value", fmt.Sprintf("n=%d i=%d", n, i))
-				}
-			}
-			for p := 0; p < len(e); p++ {
-				if _, err := ReadKeyArray(mkReader(kind, e[:p])); err == nil {
-					h.vio("KeyArray", "prefix-accepted/"+readerKinds[kind], fmt.Sprintf("n=%d prefix %d", n, p))
-				}
-			}
-		}
+		h.checkE("KeyArray", fmt.Sprintf("n=%d", n), func(w io.Writer) error { return WriteKeyArray(w, ks) }, ref, decArray, names)
 	}
 	bad := []string{"Upper:case", "a:b c", "..:x", "a:b:c", "a:\x00", "é:x"}
 	for _, s := range bad {
-		h.r.Eval(1)
+		h.r.Eval(2)
+		h.r.Class("Key/invalid")
 		if _, err := ReadKey(bytes.NewReader(refLenPrefixed([]byte(s)))); err == nil {
 			h.vio("ReadKey", "invalid-key-accepted", fmt.Sprintf("%q", s))
+		}
+		// the writer may refuse such a key; if it writes it, the reader must take it back
+		k := parseIdentifierKey(s)
+		if e := enc(func(w io.Writer) error { return WriteKey(w, k) }); e != nil {
+			if got, err := ReadKey(bytes.NewReader(e)); err != nil || got.String() != k.String() {
+				h.vio("Key", "written-key-not-read-back", fmt.Sprintf("%q: WriteKey wrote %s, ReadKey: %v", s, hx(e), err))
+			}
 		}
 	}
 	for _, l := range []int32{-1, math.MinInt32, math.MaxInt32} {
@@ -702,7 +915,7 @@ func gArrays(h *H) {
 		for _, s := range a {
 			ref = append(ref, refLenPrefixed([]byte(s))...)
 		}
-		h.check("StringArray", fmt.Sprintf("n=%d", n), enc(func(w io.Writer) error { return WriteStrings(w, a) }), ref, func(rd io.Reader) (any, error) { return ReadStringArray(rd) }, a)
+		h.checkE("StringArray", fmt.Sprintf("n=%d", n), func(w io.Writer) error { return WriteStrings(w, a) }, ref, func(rd io.Reader) (any, error) { return ReadStringArray(rd) }, a)
 	}
 	ints := []int{0, -1, 300, math.MaxInt32, math.MinInt32}
 	for n := 0; n <= 5; n++ {
@@ -711,8 +924,25 @@ func gArrays(h *H) {
 		for _, v := range a {
 			ref = append(ref, refVarInt(int32(v))...)
 		}
-		h.check("VarIntArray", fmt.Sprintf("n=%d", n), enc(func(w io.Writer) error { return WriteVarIntArray(w, a) }), ref, func(rd io.Reader) (any, error) { return ReadVarIntArray(rd) }, a)
+		h.checkE("VarIntArray", fmt.Sprintf("n=%d", n), func(w io.Writer) error { return WriteVarIntArray(w, a) }, ref, func(rd io.Reader) (any, error) { return ReadVarIntArray(rd) }, a)
 		h.check("IntArray", fmt.Sprintf("n=%d", n), ref, nil, func(rd io.Reader) (any, error) { return ReadIntArray(rd) }, a)
+	}
+	// more elements than the decoders pre-allocate for (MaxPreAllocSize): count-1, count, count+1
+	for _, n := range []int{MaxPreAllocSize - 1, MaxPreAllocSize, MaxPreAllocSize + 1} {
+		sa := make([]string, n)
+		ia := make([]int, n)
+		refS, refI := refVarInt(int32(n)), refVarInt(int32(n))
+		for i := range sa {
+			if i%5 == 1 {
+				sa[i] = "x"
+			}
+			ia[i] = i*37 - 1000
+			refS = append(refS, refLenPrefixed([]byte(sa[i]))...)
+			refI = append(refI, refVarInt(int32(ia[i]))...)
+		}
+		h.checkE("StringArray", fmt.Sprintf("n=%d", n), func(w io.Writer) error { return WriteStrings(w, sa) }, refS, func(rd io.Reader) (any, error) { return ReadStringArray(rd) }, sa)
+		h.checkE("VarIntArray", fmt.Sprintf("n=%d", n), func(w io.Writer) error { return WriteVarIntArray(w, ia) }, refI, func(rd io.Reader) (any, error) { return ReadVarIntArray(rd) }, ia)
+		h.check("IntArray", fmt.Sprintf("n=%d", n), refI, nil, func(rd io.Reader) (any, error) { return ReadIntArray(rd) }, ia)
 	}
 	for _, l := range []int32{-1, math.MinInt32, math.MaxInt32, 1 << 28} {
 		in := append(refVarInt(l), 1)
@@ -721,4 +951,86 @@ func gArrays(h *H) {
 		h.reject("IntArray", fmt.Sprintf("count=%d", l), in, func(rd io.Reader) (any, error) { return ReadIntArray(rd) })
 	}
 	_ = binary.BigEndian
+}
+
+// gPWrap: the panicking wrappers (PanicWriter / PanicReader and the PWrite*/PRead* functions) are the entry
+// points most packet codecs use. Same contract, with "error" spelled as a panic that RecoverFunc turns back
+// into an error: inverse, exact consumption, truncated input reported, failing writer reported.
+func gPWrap(h *H) {
+	type pcase struct {
+		name, label string
+		w           func(*PWriter)
+		r           func(*PReader) any
+		want        any
+		ref         []byte
+	}
+	var cases []pcase
+	add := func(name, label string, ref []byte, want any, w func(*PWriter), r func(*PReader) any) {
+		cases = append(cases, pcase{name, label, w, r, want, ref})
+	}
+	for _, v := range []int{0, 1, -1, 127, 128, 300, 1 << 21, math.MaxInt32, math.MinInt32} {
+		add("P.VarInt", fmt.Sprint(v), refVarInt(int32(v)), v, func(w *PWriter) { w.VarInt(v) }, func(r *PReader) any { var x int; r.VarInt(&x); return x })
+		add("P.Int", fmt.Sprint(v), refBE(uint64(uint32(v)), 4), v, func(w *PWriter) { w.Int(v) }, func(r *PReader) any { var x int; r.Int(&x); return x })
+		add("P.IntVal", fmt.Sprint(v), refBE(uint64(uint32(v)), 4), v, func(w *PWriter) { w.Int(v) }, func(r *PReader) any { return PReadIntVal(r.r) })
+		i64 := int64(v) * 0x100000001
+		add("P.Int64", fmt.Sprint(i64), refBE(uint64(i64), 8), i64, func(w *PWriter) { w.Int64(i64) }, func(r *PReader) any { var x int64; r.Int64(&x); return x })
+		add("P.Int64Val", fmt.Sprint(i64), refBE(uint64(i64), 8), i64, func(w *PWriter) { w.Int64(i64) }, func(r *PReader) any { return PReadInt64Val(r.r) })
+		f := math.Float32frombits(uint32(v))
+		if f == f {
+			add("P.Float32", fmt.Sprintf("bits=%x", uint32(v)), refBE(uint64(uint32(v)), 4), f, func(w *PWriter) { w.Float32(f) }, func(r *PReader) any { var x float32; r.Float32(&x); return x })
+		}
+		b := byte(v)
+		add("P.Byte", fmt.Sprint(b), []byte{b}, b, func(w *PWriter) { w.Byte(b) }, func(r *PReader) any { var x byte; r.Byte(&x); return x })
+		add("P.ByteVal", fmt.Sprint(b), []byte{b}, b, func(w *PWriter) { w.Byte(b) }, func(r *PReader) any { return PReadByteVal(r.r) })
+		add("P.Uint8", fmt.Sprint(b), []byte{b}, b, func(w *PWriter) { w.Byte(b) }, func(r *PReader) any { var x uint8; r.Uint8(&x); return x })
+	}
+	for _, b := range []bool{false, true} {
+		x := byte(0)
+		if b {
+			x = 1
+		}
+		add("P.Bool", fmt.Sprint(b), []byte{x}, b, func(w *PWriter) { w.Bool(b) }, func(r *PReader) any { var v bool; r.Bool(&v); return v })
+		add("P.Ok", fmt.Sprint(b), []byte{x}, b, func(w *PWriter) { w.Bool(b) }, func(r *PReader) any { return r.Ok() })
+		add("P.BoolVal", fmt.Sprint(b), []byte{x}, b, func(w *PWriter) { w.Bool(b) }, func(r *PReader) any { return PReadBoolVal(r.r) })
+	}
+	for _, n := range []int{0, 1, 5, 127, 128, 300} {
+		str := utf8String(n, n%2)
+		raw := content(n, 1)
+		add("P.String", fmt.Sprintf("len=%d", n), refLenPrefixed([]byte(str)), str, func(w *PWriter) { w.String(str) }, func(r *PReader) any { var x string; r.String(&x); return x })
+		add("P.StringVal", fmt.Sprintf("len=%d", n), refLenPrefixed([]byte(str)), str, func(w *PWriter) { w.String(str) }, func(r *PReader) any { return PReadStringVal(r.r) })
+		add("P.StringMax", fmt.Sprintf("len=%d", n), refLenPrefixed([]byte(str)), str, func(w *PWriter) { w.String(str) }, func(r *PReader) any { var x string; r.StringMax(&x, 75); return x })
+		add("P.Bytes", fmt.Sprintf("len=%d", n), refLenPrefixed(raw), raw, func(w *PWriter) { w.Bytes(raw) }, func(r *PReader) any { var x []byte; r.Bytes(&x); return x })
+		add("P.BytesVal", fmt.Sprintf("len=%d", n), refLenPrefixed(raw), raw, func(w *PWriter) { w.Bytes(raw) }, func(r *PReader) any { return PReadBytesVal(r.r) })
+	}
+	strs := []string{"", "a", utf8String(130, 1), "MC|Brand"}
+	for n := 0; n <= 4; n++ {
+		a := append([]string{}, strs[:n]...)
+		ref := refVarInt(int32(n))
+		for _, s := range a {
+			ref = append(ref, refLenPrefixed([]byte(s))...)
+		}
+		add("P.Strings", fmt.Sprintf("n=%d", n), ref, a, func(w *PWriter) { w.Strings(a) }, func(r *PReader) any { var x []string; r.Strings(&x); return x })
+	}
+	for _, s := range []string{"minecraft:brand", "a:b", "velocity:player_info"} {
+		k := parseIdentifierKey(s)
+		min := strings.TrimPrefix(s, "minecraft:")
+		add("P.Key", s, refLenPrefixed([]byte(s)), s, func(w *PWriter) { w.Key(k) }, func(r *PReader) any { var x key.Key; r.Key(&x); return x.String() })
+		add("P.MinimalKey", s, refLenPrefixed([]byte(min)), s, func(w *PWriter) { w.MinimalKey(k) }, func(r *PReader) any { var x key.Key; r.MinimalKey(&x); return x.String() })
+	}
+	for _, c := range cases {
+		c := c
+		h.checkE(c.name, c.label,
+			func(w io.Writer) error { return RecoverFunc(func() error { c.w(PanicWriter(w)); return nil }) },
+			c.ref,
+			func(rd io.Reader) (v any, err error) {
+				err = RecoverFunc(func() error { v = c.r(PanicReader(rd)); return nil })
+				return
+			}, c.want)
+	}
+	// a string above the given maximum is refused through the wrapper as well
+	over := refLenPrefixed([]byte(utf8String(75*4+1, 0)))
+	h.reject("P.StringMax", "len=max*4+1", over, func(rd io.Reader) (v any, err error) {
+		err = RecoverFunc(func() error { var x string; PanicReader(rd).StringMax(&x, 75); v = x; return nil })
+		return
+	})
 }
